@@ -92,7 +92,9 @@ def history_sessions(draw, main_ranks):
     cfg["match"] = match
     cfg["assoc"] = [[draw(st.sampled_from(pool)), [draw(st.integers(1, 4)), draw(st.integers(1, 4))]]
                     for _ in range(draw(st.sampled_from([0, 1])))]
-    return {"kernel": spec, "metrics": cfg}
+    # now and then the earlier session is given up: its in-memory traces are never consumed, endCollect() says so
+    # (its documented assertion) and the caller simply begins the next session
+    return {"kernel": spec, "metrics": cfg, "abandon": draw(st.sampled_from([False, False, False, False, True]))}
 
 
 @st.composite
@@ -176,13 +178,30 @@ def check_exact(res, spec, cfg, dirpath, base, who, shared_dir=False):
         raise Violation("stray-trace-file", f"session wrote files {sorted(stray)} that were not requested -- {where}")
 
 
-def session(spec, cfg, root, name, record=False):
+def session(spec, cfg, root, name, record=False, after_abandoned=False, prep=None):
+    d = os.path.join(root, name)
+    os.makedirs(d, exist_ok=True)
+    prep = prep or K.prepare(spec)
+    before = trees_of(prep)
+    res = K.run_session(prep, cfg, os.path.join(d, "k"), after_abandoned=after_abandoned)
+    return res, prep, before, d
+
+
+def abandoned_session(spec, cfg, root, name):
+    """An earlier session that is never brought to a proper end: every requested trace is an in-memory one, nothing
+    is consumed, endCollect() is tried once.  Returns True if endCollect() refused (rows were left)."""
     d = os.path.join(root, name)
     os.makedirs(d, exist_ok=True)
     prep = K.prepare(spec)
-    before = trees_of(prep)
-    res = K.run_session(prep, cfg, os.path.join(d, "k"))
-    return res, prep, before, d
+    Metrics.beginCollect(os.path.join(d, "k"))
+    for r, ty, how in cfg.get("traces", []):
+        Metrics.trace(r, type_=ty, consumable=True)
+    K.execute(prep)
+    try:
+        Metrics.endCollect()
+    except AssertionError:
+        return True
+    return False
 
 
 def check(case, rec):
@@ -224,12 +243,28 @@ def check(case, rec):
         # with `reuse_prefix` the earlier sessions and the final one all write under ONE prefix (re-running a
         # notebook cell): a new session must not inherit rows that an earlier session left in a file
         reuse = bool(case.get("reuse_prefix"))
+        left_open = False
+        nh = len(case["history"])
+        ready = {}          # operands built ahead: tensors cannot be built while Metrics believes a session is open
         for i, h in enumerate(case["history"]):
-            hres, _, _, hdir = session(h["kernel"], h["metrics"], root, "S" if reuse else f"H{i}")
+            if h.get("abandon"):
+                if left_open:
+                    continue
+                j = next((k for k in range(i + 1, nh) if not case["history"][k].get("abandon")), nh)
+                ready[j] = K.prepare(case["history"][j]["kernel"] if j < nh else spec)
+                refused = abandoned_session(h["kernel"], h["metrics"], root, f"G{i}")
+                rec.cls("history-abandoned-session")
+                rec.cls("history-abandoned-session-with-unconsumed-rows", refused)
+                left_open = Metrics.isCollecting()
+                continue
+            hres, _, _, hdir = session(h["kernel"], h["metrics"], root, "S" if reuse else f"H{i}",
+                                       after_abandoned=left_open, prep=ready.get(i))
+            left_open = False
             check_exact(hres, h["kernel"], h["metrics"], hdir, "k", f"history session {i}", shared_dir=reuse)
 
         # (3) same kernel after the pre-history
-        b, prep_b, _, dir_b = session(spec, cfg, root, "S" if reuse else "B")
+        b, prep_b, _, dir_b = session(spec, cfg, root, "S" if reuse else "B", after_abandoned=left_open,
+                                      prep=ready.get(nh))
         check_exact(b, spec, cfg, dir_b, "k", "session after pre-history", shared_dir=reuse)
         if reuse:
             b.files = {k: v for k, v in b.files.items() if k in a.files}
